@@ -3,6 +3,7 @@ package checks
 import (
 	"fmt"
 	"regexp"
+	"strings"
 
 	"verifharness/drv"
 	"verifharness/gen"
@@ -14,11 +15,11 @@ import (
 func init() { Registry["C14"] = C14 }
 
 type c14Case struct {
-	rg    *gen.RegexGen
-	re    gen.Regex
-	prog  *gen.Program
-	src   string
-	texts [][]byte
+	rg      *gen.RegexGen
+	re      gen.Regex
+	prog    *gen.Program
+	src     string
+	texts   [][]byte
 	prelude [][]byte
 }
 
@@ -103,12 +104,11 @@ func C14(r *drv.Run) {
 	if !quick(r) {
 		n, ntext = 150000, 16
 	}
-	r.Rule = "generated regexes of the stated subset (literals, ., bracket classes with ranges and negation (also opened or closed by a literal hyphen, or opened by a range that starts at the hyphen), \\d \\D \\s \\S, plain/non-capturing/named groups, * + ? {m} {m,} {m,n} and lazy forms, alternations whose operands are single quantified atoms or groups, ^ $ at the ends, numbered and named back-references to closed groups, one case in eight with 9..12 groups and two-digit back-references; sometimes an unrelated stored pattern of the same name as a named group earlier in the source; repeated bodies non-nullable), <= ~12 nodes; texts <= 14 ASCII bytes without \\r and \\f derived from the regex; a third of the cases compiled right after another source in the same process (one that fails after opening regex groups, or one with several groups). Oracle 1: Go regexp given the SAME source, evaluated position by position (spans and group texts) when the regex has no back-reference. Oracle 2: reference backtracker on the harness's own translation (always; the only oracle for back-references). Non-trivial = >= 1 match expected AND VM backtracked; distinct by (regex, text)."
+	r.Rule = "exhaustive small regexes (every sequence of up to three of eight atoms on every text over {a,b,newline,1} up to length 4; quick: all of length <= 2 and half of length 3) + generated regexes of the stated subset (literals, ., bracket classes with ranges and negation (also opened or closed by a literal hyphen, or opened by a range that starts at the hyphen), \\d \\D \\s \\S, plain/non-capturing/named groups, * + ? {m} {m,} {m,n} and lazy forms, alternations whose operands are single quantified atoms or groups, ^ $ at the ends, numbered and named back-references to closed groups, one case in eight with 9..12 groups and two-digit back-references; sometimes an unrelated stored pattern of the same name as a named group earlier in the source; repeated bodies non-nullable), <= ~12 nodes; plus ambiguous splits around 12 separators that imitate printed bindings, decided by a back-reference; texts <= 14 ASCII bytes without \\r and \\f derived from the regex; a third of the cases compiled right after another source in the same process (one that fails after opening regex groups, or one with several groups). Oracle 1: Go regexp given the SAME source, evaluated position by position (spans and group texts) when the regex has no back-reference. Oracle 2: reference backtracker on the harness's own translation (always; the only oracle for back-references). Non-trivial = >= 1 match expected AND VM backtracked; distinct by (regex, text)."
 	r.Assumptions = []string{
 		"Go regexp (leftmost-first) is the conventional backtracking engine on the back-reference-free subset; for back-references the harness reference matcher is",
 		"when a regex mixes named and numbered capturing groups only named back-references are generated (vore numbers only the unnamed groups, a conventional engine numbers all of them); group texts are compared by position of the opening parenthesis",
 		"a back-reference follows the closing parenthesis of its group",
-		"known finding K2: a capturing group under a quantifier with minimum >= 1 is rejected with a name clash",
 	}
 	r.Exec(n, drv.ExecOpts{Batch: 250}, func(i int) *drv.Item {
 		cs := c14Gen(r.Seed, i, ntext)
@@ -118,6 +118,124 @@ func C14(r *drv.Run) {
 		}
 		return &drv.Item{Case: c, Check: func(res *wire.Result) { c14Check(r, cs, &c, res) }}
 	})
+	// exhaustive small regexes: every sequence of up to three atoms from {a, ., \d, [ab], (a), b?, \n-free class,
+	// \S} on every text over {a, b, newline, 1} up to length 4 - what neighbouring atoms do to each other
+	{
+		type atom struct {
+			src  string
+			node func(g *int) gen.Node
+		}
+		lit := func(c string) func(*int) gen.Node { return func(*int) gen.Node { return gen.Lit{S: c} } }
+		atoms := []atom{
+			{"a", lit("a")},
+			{".", func(*int) gen.Node { return gen.Lit{S: "\n", Not: true} }},
+			{"\\d", func(*int) gen.Node { return gen.Class{Kind: "digit"} }},
+			{"[ab]", func(*int) gen.Node {
+				return gen.In{Items: []gen.ListItem{{Kind: "lit", S: "a"}, {Kind: "lit", S: "b"}}}
+			}},
+			{"(a)", func(g *int) gen.Node {
+				*g++
+				return gen.Seq{Items: []gen.Node{gen.Capture{Name: fmt.Sprintf("_%d", *g), Body: gen.Seq{Items: []gen.Node{gen.Lit{S: "a"}}}}}}
+			}},
+			{"b?", func(*int) gen.Node { return gen.Loop{Min: 0, Max: 1, Body: gen.Lit{S: "b"}} }},
+			{"[^a]", func(*int) gen.Node { return gen.In{Not: true, Items: []gen.ListItem{{Kind: "lit", S: "a"}}} }},
+			{"\\S", func(*int) gen.Node { return gen.Class{Kind: "whitespace", Not: true} }},
+		}
+		var small []*c14Case
+		texts := allTexts("ab\n1", 4)[1:]
+		var build func(prefix []int)
+		build = func(prefix []int) {
+			if len(prefix) > 0 {
+				g := 0
+				src := ""
+				seq := gen.Seq{}
+				var names []string
+				for _, k := range prefix {
+					src += atoms[k].src
+					before := g
+					seq.Items = append(seq.Items, atoms[k].node(&g))
+					if g > before {
+						names = append(names, fmt.Sprintf("_%d", g))
+					}
+				}
+				re := gen.Regex{Src: src, Tree: seq}
+				p := &gen.Program{Commands: []gen.Command{{Amount: gen.Amount{Kind: "all"}, Body: []gen.Node{re}}}}
+				rg := &gen.RegexGen{NGroups: g, Names: names}
+				small = append(small, &c14Case{rg, re, p, gen.RenderProgram(p), texts, nil})
+			}
+			if len(prefix) == 3 {
+				return
+			}
+			for k := range atoms {
+				build(append(append([]int{}, prefix...), k))
+			}
+		}
+		build(nil)
+		r.Extra["exhaustive_small_regexes"] = len(small)
+		r.Exec(len(small), drv.ExecOpts{Batch: 30}, func(i int) *drv.Item {
+			cs := small[i]
+			if quick(r) && (uint64(i)+r.Seed)%2 != 0 && i >= 72 {
+				return nil
+			}
+			c := wire.Case{Op: "run", Src: []byte(cs.src), Texts: cs.texts, StepBudget: 400000}
+			return &drv.Item{Case: c, Check: func(res *wire.Result) { c14Check(r, cs, &c, res) }}
+		})
+	}
+	// two groups that can split the same text in several ways around a separator, and a back-reference that decides
+	// which split is the match; separators that look like the notations programs print bindings in (Go's %v of a map,
+	// JSON, key=value lists): a matcher must tell two binding sets apart by what they are, not by how they print
+	{
+		seps := []string{"} _2:{", "} b:{", "] _2:[", "map[", "\":\"", ", ", ":", "|", "=", "; ", "}{", " _1:", "\x00"}
+		dot := gen.Lit{S: "\n", Not: true}
+		esc := func(sep string) (string, []gen.Node) {
+			src := ""
+			var nodes []gen.Node
+			for i := 0; i < len(sep); i++ {
+				c := sep[i]
+				if strings.IndexByte(".*+?|()[]{}^$-\\", c) >= 0 {
+					src += "\\"
+				}
+				if c == 0 {
+					src += "\\x00"
+				} else {
+					src += string([]byte{c})
+				}
+				nodes = append(nodes, gen.Lit{S: string([]byte{c})})
+			}
+			return src, nodes
+		}
+		var look []*c14Case
+		for si, sep := range seps {
+			if sep == "\x00" {
+				continue // the literal syntax has no spelling for NUL inside a regex
+			}
+			ssrc, snodes := esc(sep)
+			for _, named := range []bool{false, true} {
+				n1, n2, o1, o2, b := "_1", "_2", "(", "(", "\\1"
+				if named {
+					n1, n2, o1, o2, b = "a", "b", "(?<a>", "(?<b>", "\\k<a>"
+				}
+				src := o1 + ".+?)" + ssrc + o2 + ".+)" + b + "$"
+				items := []gen.Node{gen.Seq{Items: []gen.Node{gen.Capture{Name: n1, Body: gen.Seq{Items: []gen.Node{gen.Loop{Min: 1, Max: -1, Lazy: true, Body: dot}}}}}}}
+				items = append(items, snodes...)
+				items = append(items, gen.Seq{Items: []gen.Node{gen.Capture{Name: n2, Body: gen.Seq{Items: []gen.Node{gen.Loop{Min: 1, Max: -1, Body: dot}}}}}}, gen.BackRef{Name: n1}, gen.Anchor{Kind: "lineend"})
+				re := gen.Regex{Src: src, Tree: gen.Seq{Items: items}}
+				p := &gen.Program{Commands: []gen.Command{{Amount: gen.Amount{Kind: "all"}, Body: []gen.Node{re}}}}
+				texts := [][]byte{[]byte("x" + sep + "y" + sep + "zx" + sep + "y"), []byte("x" + sep + "y" + sep + "x"), []byte("ab" + sep + sep + "ab" + sep), []byte("q" + sep + "q" + sep + "q" + sep + "q"), []byte("x" + sep + "y" + sep + "zx")}
+				rg := &gen.RegexGen{NGroups: 2, Names: []string{n1, n2}, HasBackRef: true, Named: named}
+				look = append(look, &c14Case{rg, re, p, gen.RenderProgram(p), texts, nil})
+				_ = si
+			}
+		}
+		r.Exec(len(look), drv.ExecOpts{Batch: 6}, func(i int) *drv.Item {
+			cs := look[i]
+			c := wire.Case{Op: "run", Src: []byte(cs.src), Texts: cs.texts, StepBudget: 2_000_000}
+			return &drv.Item{Case: c, Check: func(res *wire.Result) {
+				c14Check(r, cs, &c, res)
+				r.Count("separator_lookalike_cases", 1)
+			}}
+		})
+	}
 	if r.NViolations() == 0 {
 		expensiveFloor(r)
 		for _, k := range []string{"go_regexp_compared", "backref_cases", "group_texts_compared", "named_group_cases", "named_backref_cases", "two_digit_backref_cases", "named_backref_cases_with_same_named_stored_pattern"} {
